@@ -129,6 +129,8 @@ impl MoveGen {
         const NUM_PROMOTION_PIECES: usize = 4;
 
         let mut len = 0;
+        // promotions of the current destination that were already yielded
+        let mut yielded = PROMOTION_PIECES.len() - self.promotions.len();
 
         for legals in &self.moves[self.index..] {
             if (legals.moves & self.mask).none() {
@@ -136,7 +138,7 @@ impl MoveGen {
             }
             let count = (legals.moves & self.mask).count() as usize;
             len += if legals.promotion {
-                count * NUM_PROMOTION_PIECES
+                count * NUM_PROMOTION_PIECES - core::mem::take(&mut yielded)
             } else {
                 count
             };
